@@ -964,28 +964,44 @@ func buildServeModel(p *Program, fd *ast.FuncDecl) *ServeModel {
 	// 4. if h == nil { h = rt.NotFoundHandler; if h == nil { h = http.NotFoundHandler() }; hasPath = false }
 	if ifs, ok := list[3].(*ast.IfStmt); ok && ifs.Else == nil {
 		be, okb := ifs.Cond.(*ast.BinaryExpr)
-		if okb && be.Op == token.EQL && c.isObj(be.X, h) && isNilIdent(be.Y) && (len(ifs.Body.List) == 3 || elseForm && len(ifs.Body.List) == 2) {
-			a1, ok1 := ifs.Body.List[0].(*ast.AssignStmt)
-			i2, ok2 := ifs.Body.List[1].(*ast.IfStmt)
-			a3, ok3 := &ast.AssignStmt{}, true
-			if len(ifs.Body.List) == 3 {
-				a3, ok3 = ifs.Body.List[2].(*ast.AssignStmt)
-			}
+		if okb && be.Op == token.EQL && c.isObj(be.X, h) && isNilIdent(be.Y) {
+			body := ifs.Body.List
 			if elseForm {
 				sm.HasPathFalse = true
 			}
-			if ok1 && ok2 && ok3 && len(a1.Lhs) == 1 && c.isObj(a1.Lhs[0], h) && c.rtField(a1.Rhs[0]) != nil && a1.Tok == token.ASSIGN {
-				be2, okb2 := i2.Cond.(*ast.BinaryExpr)
-				if okb2 && be2.Op == token.EQL && c.isObj(be2.X, h) && isNilIdent(be2.Y) && len(i2.Body.List) == 1 && i2.Else == nil {
-					if a, ok := i2.Body.List[0].(*ast.AssignStmt); ok && len(a.Lhs) == 1 && c.isObj(a.Lhs[0], h) {
-						if _, ok := c.stdCall(a.Rhs[0], "net/http.NotFoundHandler"); ok {
-							sm.NotFoundOK = true
+			// optional trailing `hasPath = false`
+			if n := len(body); n > 0 {
+				if a3, ok := body[n-1].(*ast.AssignStmt); ok && len(a3.Lhs) == 1 && c.isObj(a3.Lhs[0], hasPath) && a3.Tok == token.ASSIGN {
+					if tv := info.Types[a3.Rhs[0]]; tv.Value != nil && tv.Value.Kind() == constant.Bool && !constant.BoolVal(tv.Value) {
+						sm.HasPathFalse = true
+						body = body[:n-1]
+					}
+				}
+			}
+			// the fallback leaves h non-nil: `h = rt.F; if h == nil { h = http.NotFoundHandler() }`
+			// or `h = rt.<method>()` whose every return is non-nil
+			switch len(body) {
+			case 2:
+				a1, ok1 := body[0].(*ast.AssignStmt)
+				i2, ok2 := body[1].(*ast.IfStmt)
+				if ok1 && ok2 && len(a1.Lhs) == 1 && c.isObj(a1.Lhs[0], h) && c.rtField(a1.Rhs[0]) != nil && a1.Tok == token.ASSIGN {
+					be2, okb2 := i2.Cond.(*ast.BinaryExpr)
+					if okb2 && be2.Op == token.EQL && c.isObj(be2.X, h) && isNilIdent(be2.Y) && len(i2.Body.List) == 1 && i2.Else == nil {
+						if a, ok := i2.Body.List[0].(*ast.AssignStmt); ok && len(a.Lhs) == 1 && c.isObj(a.Lhs[0], h) {
+							if _, ok := c.stdCall(a.Rhs[0], "net/http.NotFoundHandler"); ok {
+								sm.NotFoundOK = true
+							}
 						}
 					}
 				}
-				if len(a3.Lhs) == 1 && c.isObj(a3.Lhs[0], hasPath) && a3.Tok == token.ASSIGN {
-					if tv := info.Types[a3.Rhs[0]]; tv.Value != nil && tv.Value.Kind() == constant.Bool && !constant.BoolVal(tv.Value) {
-						sm.HasPathFalse = true
+			case 1:
+				if a1, ok := body[0].(*ast.AssignStmt); ok && len(a1.Lhs) == 1 && len(a1.Rhs) == 1 && c.isObj(a1.Lhs[0], h) && a1.Tok == token.ASSIGN {
+					if call, ok := ast.Unparen(a1.Rhs[0]).(*ast.CallExpr); ok && len(call.Args) == 0 {
+						if sel, ok := call.Fun.(*ast.SelectorExpr); ok && c.isObj(sel.X, c.recv) {
+							if fo, ok := typeutil.Callee(info, call).(*types.Func); ok && nonNilHandlerFunc(p, declOfObj(p, fo)) {
+								sm.NotFoundOK = true
+							}
+						}
 					}
 				}
 			}
@@ -1125,4 +1141,70 @@ func declOfObj(p *Program, o types.Object) *ast.FuncDecl {
 		}
 	}
 	return nil
+}
+
+// nonNilHandlerFunc: a method without parameters whose every return yields a non-nil
+// http.Handler: either http.NotFoundHandler() or an expression returned under `if <it> != nil`.
+func nonNilHandlerFunc(p *Program, fd *ast.FuncDecl) bool {
+	if fd == nil || fd.Body == nil || fd.Type.Params.NumFields() != 0 {
+		return false
+	}
+	info := p.Pkg.TypesInfo
+	c := &rmCtx{p: p, info: info, recv: recvObj(info, fd)}
+	ok := true
+	nRet := 0
+	var walk func(list []ast.Stmt, nonNil []string)
+	walk = func(list []ast.Stmt, nonNil []string) {
+		for _, st := range list {
+			switch x := st.(type) {
+			case *ast.ReturnStmt:
+				nRet++
+				if len(x.Results) != 1 {
+					ok = false
+					continue
+				}
+				if _, isNF := c.stdCall(x.Results[0], "net/http.NotFoundHandler"); isNF {
+					continue
+				}
+				good := false
+				for _, e := range nonNil {
+					if e == types.ExprString(x.Results[0]) {
+						good = true
+					}
+				}
+				if !good {
+					ok = false
+				}
+			case *ast.IfStmt:
+				if x.Init != nil {
+					ok = false
+					continue
+				}
+				nn := nonNil
+				if be, isB := ast.Unparen(x.Cond).(*ast.BinaryExpr); isB && be.Op == token.NEQ && isNilIdent(be.Y) && c.rtField(be.X) != nil {
+					nn = append(append([]string{}, nonNil...), types.ExprString(be.X))
+				}
+				walk(x.Body.List, nn)
+				switch e := x.Else.(type) {
+				case *ast.BlockStmt:
+					walk(e.List, nonNil)
+				case nil:
+				default:
+					ok = false
+				}
+			case *ast.BlockStmt:
+				walk(x.List, nonNil)
+			default:
+				ok = false
+			}
+		}
+	}
+	walk(fd.Body.List, nil)
+	// the body must end in a return
+	if n := len(fd.Body.List); n == 0 {
+		return false
+	} else if _, isRet := fd.Body.List[n-1].(*ast.ReturnStmt); !isRet {
+		return false
+	}
+	return ok && nRet > 0
 }
